@@ -334,10 +334,28 @@ func (r *recValidator) Validate(from, until int64) error {
 	return nil
 }
 
+type intakeParser struct {
+	rv *recValidator
+	p  *operationparser.Parser
+}
+
+var intakeParsers = map[string]*intakeParser{}
+
 func evalIntake(c *Case) (kind, sig, msg string) {
 	_, h := build(c)
-	rv := &recValidator{}
-	parser := operationparser.New(c.P.protocol(c.Code), operationparser.WithAnchorTimeValidator(rv))
+	// one long-lived parser (and its recording validator) per protocol configuration, as on a real node
+	pk := js(c.P) + fmt.Sprint(c.Code)
+	ip, ok := intakeParsers[pk]
+	if !ok {
+		if len(intakeParsers) > 256 {
+			intakeParsers = map[string]*intakeParser{}
+		}
+		v := &recValidator{}
+		ip = &intakeParser{rv: v, p: operationparser.New(c.P.protocol(c.Code), operationparser.WithAnchorTimeValidator(v))}
+		intakeParsers[pk] = ip
+	}
+	rv, parser := ip.rv, ip.p
+	rv.calls = nil
 	var err error
 	pn := ev.Catch(func() { _, err = parser.Parse("did:sidetree", h[1].Op.OperationRequest) })
 	if pn != "" {
